@@ -22,5 +22,12 @@ for prop in C01 C16 C16 C01 C01 C08 C02 C02 C13 C14 C15 C05; do
   else echo "benign_$i [$prop]: inconclusive"; fi
   i=$((i+1))
 done
+for spec in "b1_1:C01 C02 C08" "b1_2:C01 C02 C08" "b1_3:C16 C01" "b1_4:C01 C05" "b1_5:C01 C05 C02" "b2_1:C02" "b2_2:C16" "b2_3:C14 C01" "b2_4:C01 C02" "b2_5:C02" "b3_1:C13" "b3_2:C13" "b3_3:C15" "b3_4:C15" "b3_5:C14" "b3_6:C06"; do
+  f=${spec%%:*}; props=${spec#*:}
+  out=$(./seedrun.sh seeded/benign2/$f.diff $props 2>&1)
+  if echo "$out" | grep -q "^VIOLATION"; then echo "benign2/$f [$props]: FALSE ALARM"; fail=1
+  elif echo "$out" | grep -q "^INCONCLUSIVE"; then echo "benign2/$f [$props]: inconclusive"
+  else echo "benign2/$f [$props]: quiet"; fi
+done
 git checkout -q -- evidence 2>/dev/null
 exit $fail
